@@ -40,8 +40,14 @@ Fixpoint snake_aux (prev : option ascii) (cs : list ascii) : list ascii :=
         (if ins then ["_"%char] else []) ++ to_lower ch :: snake_aux (Some ch) rest
       else ch :: snake_aux (Some ch) rest
   end.
+(* a raw identifier (`r#loop`) contributes its bare name: s.strip_prefix("r#").unwrap_or(s) *)
+Definition strip_raw (cs : list ascii) : list ascii :=
+  match cs with
+  | a :: b :: rest => if Ascii.eqb a "r"%char && Ascii.eqb b "#"%char then rest else cs
+  | _ => cs
+  end.
 Definition to_snake_case (s : string) : string :=
-  string_of_list_ascii (snake_aux None (list_ascii_of_string s)).
+  string_of_list_ascii (snake_aux None (strip_raw (list_ascii_of_string s))).
 
 (* utils.rs:75 to_pascal_case: split on '_', upper-case the first char of each word, concatenate *)
 Fixpoint pascal_aux (start : bool) (cs : list ascii) : list ascii :=
